@@ -146,7 +146,10 @@ pub fn adapt_io(sim: &Sim, id: Id, fd: FdSpec, blocking: bool) {
             if st.adapters.values().any(|b| alive(b.state) && Rc::ptr_eq(&b.own.0, &a.own.0)) {
                 return;
             }
-            inherit = Some(o);
+            // the byte stream of this fd goes on: inherit peer and positions from whichever dead
+            // adapter over the same fd holds them now
+            let holder = st.adapters.iter().filter(|(_, b)| Rc::ptr_eq(&b.own.0, &a.own.0)).max_by_key(|(_, b)| (b.peer.is_some(), b.peer_wrote + b.task_read + b.task_wrote + b.peer_read)).map(|(i, _)| *i);
+            inherit = holder.or(Some(o));
             (a.own.clone(), None, a.fdkind)
         }
         FdSpec::Closed | FdSpec::RegularFile => {
